@@ -57,6 +57,7 @@ class TreeHarness:
         self.fn['draw'] = mir.find(r'^draw$')
         self.fn['dir_sample'] = mir.method('StandardUniform', 'Distribution', 'sample')
         self.install()
+        self.vm.loop_bound = maxdepth + 2      # unwinding assertion: the only loop in nuts::draw is the doubling loop, entered at most maxdepth + 1 times
 
     # ---------------------------------------------------------------- state helpers
     def st(self, m, v):
